@@ -122,7 +122,7 @@ def evaluate(args):
             # tolerance: exact closed forms in laminar / turbulent flow, the
             # iteration's own stopping rule (|dx| < 1e-5) otherwise
             exact = o['regime'] != 'transition' and GRIDS[gname] is None
-            o['gtol'] = 64 if exact else int(2e-3 * ONE)
+            o['gtol'] = 64 if exact else int(1e-4 * ONE)
     except BaseException as e:
         import traceback
         o['outcome'] = type(e).__name__
@@ -144,6 +144,9 @@ def cases_for(rng, tier):
         dims = bs.random_dims(rng, n, 1)
         for ff, fs, mix in itertools.product(FF, FS, MIX):
             for reg, rl in res.items():
+                if tier == 'quick' and reg == 'laminar' and \
+                        (ff, fs, mix) == ('NOV', 'NOV', 'MIT'):
+                    rl = rl + [12.0]      # keeps the listed finding visible
                 for re_t in rl:
                     gl = list(GRIDS) if (tier == 'thorough' or
                                          (ff, mix) in (('CTD', 'CTD'),
@@ -185,7 +188,8 @@ def run(tier, res, replay=None):
                 clauses = sorted(c.strip('" ') for c in
                                  info.strip('{}').split(',') if c.strip())
                 for cl in clauses:
-                    key = (f'combo=ff:{o["ff"]},fs:{o["fs"]},mix:{o["mix"]};'
+                    low = 'relt17=1;' if o.get('Re', 1000) < 17 else ''
+                    key = (f'{low}combo=ff:{o["ff"]},fs:{o["fs"]},mix:{o["mix"]};'
                            f'regime={o["regime"]};grid={o["grid"]};'
                            f'exc={o["outcome"]};clause={cl}')
                     res.violation(key, f'{o["label"]}: {clauses} '
@@ -202,7 +206,7 @@ def run(tier, res, replay=None):
                 '(uses the flow-split family\'s own friction constants)',
                 'spec/Corr.tla')
     res.assume('gradients compared at 5e-7 relative in laminar / turbulent '
-               'flow and 2e-3 in transition or with grids (the iteration '
+               'flow and 1e-4 in transition or with grids (the iteration '
                'stops at |dx| < 1e-5)')
 
 
